@@ -306,6 +306,12 @@ def interaction_schemas():
                                 keytype="identifier"),
                            TYPE("c1", [K("own")], extends="c0", keytype="basic-key")],
                     children=[MSEC("b1", "*", "ones"), SEC("b0", "+", "zero"), MSEC("c1", "*", "cs"), SEC("c0", "+", "c")]))
+    # 13 required wildcard maps that have schema defaults: a required map is filled by the text, not by its defaults
+    #    (required multikeys, by contrast, are satisfied by theirs)
+    S.append(SCHEMA(types=[TYPE("t1", [K("+", required=True, attribute="w", defaults=[("d1", "v1"), ("d2", "V2")])]),
+                           TYPE("t2", [MK("+", "integer", required=True, attribute="wm", defaults=[("a", "12"), ("a", "-3")]),
+                                       MK("m1", required=True, defaults=["v1"])])],
+                    children=[MSEC("t1", "*", "ones"), SEC("t2", "*", "two"), K("k0")]))
     return S
 
 
